@@ -13,6 +13,8 @@ import (
 	"github.com/consensys/gnark/constraint"
 	"github.com/consensys/gnark/frontend"
 	"github.com/consensys/gnark/test/unsafekzg"
+
+	kzg "github.com/consensys/gnark-crypto/kzg"
 )
 
 // G16 is a compiled circuit with its Groth16 keys.
@@ -85,7 +87,16 @@ func NewPlonkFromCS(f prog.Field, cs constraint.ConstraintSystem, tau *big.Int) 
 	if tau != nil {
 		kopts = append(kopts, unsafekzg.WithToxicValue(tau))
 	}
-	srs, lag, err := unsafekzg.NewSRS(cs, kopts...)
+	// the SRS comes from gnark's TEST utility: a failure there (it panics for a
+	// one-row system) is not a failure of Setup
+	srs, lag, err := func() (s kzg.SRS, l kzg.SRS, e error) {
+		defer func() {
+			if r := recover(); r != nil {
+				e = fmt.Errorf("panic in test/unsafekzg: %v", r)
+			}
+		}()
+		return unsafekzg.NewSRS(cs, kopts...)
+	}()
 	if err != nil {
 		return nil, fmt.Errorf("srs: %w", err)
 	}
